@@ -241,6 +241,18 @@ impl Column {
         bits
     }
 
+    /// Returns true if the column's type can be represented in the `_Columns`
+    /// table's type bitfield, which has only eight bits for the maximum
+    /// length of a string column.
+    pub(crate) fn is_storable(&self) -> bool {
+        match self.coltype {
+            ColumnType::Int16 | ColumnType::Int32 => true,
+            ColumnType::Str(max_len) => {
+                max_len <= (COL_FIELD_SIZE_MASK as usize)
+            }
+        }
+    }
+
     /// Returns true if the given string is a valid column name.
     pub(crate) fn is_valid_name(name: &str) -> bool {
         Category::Identifier.validate(name)
